@@ -101,3 +101,183 @@ def _(lc):
     lc.prove("x1-attained", Or(*[eq(h[2], cp[0]) for cp in cs]))
     lc.prove("y0-attained", Or(*[eq(h[1], cp[1]) for cp in cs]))
     lc.prove("y1-attained", Or(*[eq(h[3], cp[1]) for cp in cs]))
+
+
+# ---------------------------------------------------------------------------
+# Plane: grid range computation, overlap filter, Lemma G.  (add/remove/find as
+# whole-history statements: bounded stand-in below, see DESIGN.md.)
+import ast
+from pyvc.contracts import fragment, bounded, exhaustive
+from pyvc.logic import Iff, Not, any_z3
+from specs import plane as PS
+
+PlaneS = lambda: T.Obj("pdfminer.utils:Plane", x0=T.Real(), y0=T.Real(), x1=T.Real(), y1=T.Real(),
+                       gridsize=T.Int(lo=1, hi=1000, samples=[1, 2, 50]))
+
+
+def ymember(result, w):
+    """membership of w in the yielded sequence (symbolic comprehension or concrete list)"""
+    from pyvc.symexec import SYieldComp
+    rs = []
+    for item in result:
+        if isinstance(item, SYieldComp):
+            rs.append(item.member(w))
+        else:
+            rs.append(eq(item, w))
+    return Or(*rs)
+
+
+c = contract("pdfminer.utils:drange", props=["C20"], inline=True)
+c.param("v0", T.Real()).param("v1", T.Real()).param("d", T.Int(lo=1, hi=1000, samples=[1, 2, 50]))
+c.ghost("t", T.Int(lo=-200, hi=200))
+c.ens("range-is-floor-cells", lambda v0, v1, d, t, result:
+      Iff(_in_range(result, t), And(le(PS.lo(v0, d), t), lt(t, PS.hi(v1, d)))))
+
+
+def _in_range(r, t):
+    if isinstance(r, range):
+        return t in r
+    return r.contains(t)
+
+
+c = contract("pdfminer.utils:Plane._getrange", props=["C20"])
+c.param("self", PlaneS()).param("bbox", R4())
+c.ghost("cx", T.Int(lo=-200, hi=200)).ghost("cy", T.Int(lo=-200, hi=200))
+c.ens("yields-exactly-the-cells-of-the-clipped-box", lambda self, bbox, cx, cy, result:
+      Iff(ymember(result, (cx, cy)), PS.in_cells((self.x0, self.y0, self.x1, self.y1), self.gridsize, bbox, cx, cy)))
+
+
+def _find_filter(fn):
+    """the `if <box test>: continue` that directly precedes `yield obj` in Plane.find"""
+    for n in ast.walk(fn):
+        if isinstance(n, ast.For):
+            body = n.body
+            for i, st in enumerate(body[:-1]):
+                nxt = body[i + 1]
+                if (isinstance(st, ast.If) and len(st.body) == 1 and isinstance(st.body[0], ast.Continue) and not st.orelse
+                        and isinstance(nxt, ast.Expr) and isinstance(nxt.value, ast.Yield)):
+                    return st.test
+    return None
+
+
+BoxObj = lambda: T.Obj(None, x0=T.Real(), y0=T.Real(), x1=T.Real(), y1=T.Real())
+c = fragment("pdfminer.utils:Plane.find", "overlap-filter", _find_filter, props=["C20", "C09"])
+c.param("obj", BoxObj()).param("x0", T.Real()).param("y0", T.Real()).param("x1", T.Real()).param("y1", T.Real())
+c.ens("skips-exactly-the-non-overlapping", lambda obj, x0, y0, x1, y1, result:
+      Iff(result, Not(PS.proper_overlap((obj.x0, obj.y0, obj.x1, obj.y1), (x0, y0, x1, y1)))))
+
+
+def _add_range_arg(fn):
+    """the bbox expression handed to self._getrange(...) in add/remove"""
+    for n in ast.walk(fn):
+        if isinstance(n, ast.Call) and isinstance(n.func, ast.Attribute) and n.func.attr == "_getrange":
+            return n.args[0]
+    return None
+
+
+for _m in ("add", "remove"):
+    c = fragment("pdfminer.utils:Plane.%s" % _m, "cells-of-own-box", _add_range_arg, props=["C20"])
+    c.param("obj", BoxObj()).param("self", T.Opaque("plane"))
+    c.ens("range-is-computed-from-the-object-box", lambda obj, result: eq(result, (obj.x0, obj.y0, obj.x1, obj.y1)))
+
+
+@lemma("grid-lemma-G", props=["C20"],
+       note="properly overlapping boxes whose common region meets the index bounds share a grid cell")
+def _(lc):
+    B, o, q = lc.fresh(R4(), "B"), lc.fresh(R4(), "o"), lc.fresh(R4(), "q")
+    g = lc.fresh(T.Int(lo=1), "g")
+    lc.assume(And(lt(B[0], B[2]), lt(B[1], B[3])))
+    lc.assume(And(le(o[0], o[2]), le(o[1], o[3]), le(q[0], q[2]), le(q[1], q[3])))
+    lc.assume(PS.proper_overlap(o, q))
+    common = (Max(o[0], q[0]), Max(o[1], q[1]), Min(o[2], q[2]), Min(o[3], q[3]))
+    lc.assume(PS.proper_overlap(common, B))
+    import z3
+    # witness cell: the cell of the lower-left corner of the common region clipped to the bounds
+    wx = PS.lo(Max(common[0], B[0]), g)
+    wy = PS.lo(Max(common[1], B[1]), g)
+    lc.prove("witness-cell-in-object", PS.in_cells(B, g, o, wx, wy))
+    lc.prove("witness-cell-in-query", PS.in_cells(B, g, q, wx, wy))
+
+
+@lemma("grid-lemma-G-outside-bounds", props=["C20"],
+       note="the same statement without the in-bounds hypothesis: recorded finding F17 (clipping)")
+def _(lc):
+    B, o, q = lc.fresh(R4(), "B"), lc.fresh(R4(), "o"), lc.fresh(R4(), "q")
+    g = lc.fresh(T.Int(lo=1), "g")
+    lc.assume(And(lt(B[0], B[2]), lt(B[1], B[3])))
+    lc.assume(And(le(o[0], o[2]), le(o[1], o[3]), le(q[0], q[2]), le(q[1], q[3])))
+    lc.assume(PS.proper_overlap(o, q))
+    common = (Max(o[0], q[0]), Max(o[1], q[1]), Min(o[2], q[2]), Min(o[3], q[3]))
+    wx = PS.lo(Max(common[0], B[0]), g)
+    wy = PS.lo(Max(common[1], B[1]), g)
+    lc.prove_known("shared-cell-for-every-overlapping-pair",
+                   And(PS.in_cells(B, g, o, wx, wy), PS.in_cells(B, g, q, wx, wy)),
+                   finding_id="F17", outside="grid-lemma-G")
+
+
+@bounded("plane-histories-vs-brute-force", props=["C20"],
+         bound="all add/remove/find/iterate histories of <= 4 operations over 3 boxes from a 5-value dyadic grid (quick: seeded sample of 4000 histories; thorough: 60000), index bounds (0,0,8,8), gridsize in {1,3,50}")
+def _(tier, seed):
+    import random, itertools
+    from pyvc.extract import real_module
+    Plane = real_module("pdfminer.utils").Plane
+    vals = [-1.5, 0, 2.5, 4, 9]
+    rng = random.Random(seed)
+
+    class Box:
+        def __init__(self, b, i):
+            (self.x0, self.y0, self.x1, self.y1), self.i = b, i
+        def __repr__(self):
+            return "Box%d" % self.i
+
+    def inb(b, B=(0, 0, 8, 8)):
+        return b[0] < B[2] and B[0] < b[2] and b[1] < B[3] and B[1] < b[3]
+
+    n = 4000 if tier == "quick" else 60000
+    evals = 0
+    failures = []
+    distinct = set()
+    for _ in range(n):
+        g = rng.choice([1, 3, 50])
+        boxes = []
+        for i in range(3):
+            x0, x1 = sorted(rng.sample(vals, 2)); y0, y1 = sorted(rng.sample(vals, 2))
+            boxes.append(Box((x0, y0, x1, y1), i))
+        p = Plane((0, 0, 8, 8), gridsize=g)
+        live, seq, hist = [], [], []
+        for _step in range(4):
+            op = rng.choice(["add", "add", "remove", "find", "iter"])
+            if op == "add":
+                cand = [b for b in boxes if b not in live and b not in seq]
+                if not cand:
+                    continue
+                b = rng.choice(cand); p.add(b); live.append(b); seq.append(b); hist.append(("add", b.i))
+            elif op == "remove":
+                if not live:
+                    continue
+                b = rng.choice(live); p.remove(b); live.remove(b); hist.append(("remove", b.i))
+            elif op == "find":
+                x0, x1 = sorted(rng.sample(vals, 2)); y0, y1 = sorted(rng.sample(vals, 2))
+                q = (x0, y0, x1, y1)
+                got = list(p.find(q))
+                hist.append(("find", q))
+                def bb(b): return (b.x0, b.y0, b.x1, b.y1)
+                want = [b for b in live if bb(b)[0] < q[2] and q[0] < bb(b)[2] and bb(b)[1] < q[3] and q[1] < bb(b)[3]]
+                # in-bounds part of the theorem: common region must meet the index bounds
+                def common_in(b):
+                    c = (max(bb(b)[0], q[0]), max(bb(b)[1], q[1]), min(bb(b)[2], q[2]), min(bb(b)[3], q[3]))
+                    return inb(c)
+                evals += 1
+                distinct.add((g, tuple(hist[-3:]).__repr__()))
+                ok = len(got) == len(set(map(id, got))) and all(b in want for b in got) and all((b in got) for b in want if common_in(b))
+                if not ok:
+                    failures.append(dict(gridsize=g, boxes=[bb(b) for b in boxes], history=hist, got=[b.i for b in got], want=[b.i for b in want]))
+            else:
+                got = list(p)
+                evals += 1
+                hist.append(("iter",))
+                if got != [b for b in seq if b in live]:
+                    failures.append(dict(gridsize=g, boxes=[(b.x0, b.y0, b.x1, b.y1) for b in boxes], history=hist, got=[b.i for b in got]))
+        if len(failures) >= 3:
+            break
+    return dict(evaluations=evals, distinct=len(distinct), failures=failures)
